@@ -20,7 +20,7 @@
 // C03 applies to each of its per-session sends from the instant that send has returned (its `ret`), as for
 // any directed message; the record `f … mode=detached` is evidence only.
 //
-// Transports: mem io sse sh shj she shje (both topologies), sl slj (topology A; a stateless server has no
+// Transports: mem io sse sh shj she shje (both topologies), sl slj sn snj (topology A; a sessionless server has no
 // session to send from).  The raw streamable peer (rw rwj rh) is a hand-written client and has no notifying
 // method.  Not part of the repository; grafted into package mcp by -overlay.
 package mcp
@@ -42,7 +42,7 @@ import (
 
 const ordFanURI = "file:///fan"
 
-var ordFanTransports = []string{"mem", "io", "sse", "sh", "shj", "she", "shje", "sl", "slj"}
+var ordFanTransports = []string{"mem", "io", "sse", "sh", "shj", "she", "shje", "sl", "slj", "sn", "snj"}
 
 var ordFanMethod = map[string]string{
 	notificationRootsListChanged:    "roots",
@@ -237,7 +237,7 @@ func (h *ordH) runFanScript(from int, css []*ClientSession, sss []*ServerSession
 			switch m.kind {
 			case 'n', 'c':
 				h.issue(context.Background(), i, cs, ss, client)
-			case 'g', 'r':
+			case 'g', 'r', 'x':
 				wg.Add(1)
 				go func() {
 					defer wg.Done()
@@ -286,7 +286,7 @@ func (l *ordFanLink) connect(server *Server) (Transport, *ServerSession, error) 
 		hd := l.hd[server]
 		if hd == nil {
 			o := &StreamableHTTPOptions{}
-			rest := strings.TrimPrefix(strings.TrimPrefix(l.tr, "sh"), "sl")
+			rest := l.tr[2:]
 			o.Stateless = strings.HasPrefix(l.tr, "sl")
 			o.JSONResponse = strings.Contains(rest, "j")
 			if strings.Contains(rest, "e") {
@@ -302,12 +302,16 @@ func (l *ordFanLink) connect(server *Server) (Transport, *ServerSession, error) 
 }
 
 func ordFanServer(h *ordH) *Server {
-	server := NewServer(&Implementation{Name: "s", Version: "1"}, &ServerOptions{
+	sopts := &ServerOptions{
 		RootsListChangedHandler:     func(context.Context, *RootsListChangedRequest) {},
 		ProgressNotificationHandler: func(context.Context, *ProgressNotificationServerRequest) {},
 		SubscribeHandler:            func(context.Context, *SubscribeRequest) error { return nil },
 		UnsubscribeHandler:          func(context.Context, *UnsubscribeRequest) error { return nil },
-	})
+	}
+	if strings.HasPrefix(h.c.tr, "sn") {
+		sopts.GetSessionID = func() string { return "" } // no session ids: every POST gets a temporary session
+	}
+	server := NewServer(&Implementation{Name: "s", Version: "1"}, sopts)
 	server.AddTool(&Tool{Name: "t", InputSchema: map[string]any{"type": "object"}}, func(ctx context.Context, req *CallToolRequest) (*CallToolResult, error) {
 		return &CallToolResult{Content: []Content{&TextContent{Text: "ok"}}}, nil
 	})
@@ -571,6 +575,19 @@ func ordRunFanCase(t *testing.T, out *verifOut, id string, c *ordCase) {
 			if overlap[i] {
 				tags = append(tags, "overlapped")
 			}
+			if m.kind == 'x' {
+				switch {
+				case e == "0":
+					tags = append(tags, "cancel-too-late")
+				case cnt[i] == 0:
+					tags = append(tags, "cancelled-unhandled")
+				default:
+					tags = append(tags, "cancelled-running")
+				}
+				if c.ck > 0 {
+					tags = append(tags, "cancel-goroutine-late")
+				}
+			}
 			if m.cb {
 				tags = append(tags, "callback", h.cbres[i])
 			}
@@ -613,7 +630,7 @@ func ordRunFanCase(t *testing.T, out *verifOut, id string, c *ordCase) {
 // peer, issued without a pause.
 func ordGenFan(rng *rand.Rand, tr string, maxLen int) *ordCase {
 	c := &ordCase{tr: tr, np: 2 + rng.Intn(2)}
-	stateless := strings.HasPrefix(tr, "sl")
+	stateless := ordSessionless(tr)
 	c.dir = "c2s"
 	if !stateless && rng.Intn(2) == 0 {
 		c.dir = "s2c"
@@ -638,16 +655,7 @@ func ordGenFan(rng *rand.Rand, tr string, maxLen int) *ordCase {
 			}
 		}
 	}
-	dur := func() int {
-		switch rng.Intn(4) {
-		case 0:
-			return 0
-		case 1:
-			return 1 + rng.Intn(3)
-		default:
-			return 1 + rng.Intn(15)
-		}
-	}
+	dur := func() int { return ordDur(rng) }
 	gap := func() int {
 		if rng.Intn(3) == 0 {
 			return 1 + rng.Intn(9)
@@ -731,11 +739,14 @@ func ordGenFan(rng *rand.Rand, tr string, maxLen int) *ordCase {
 				m.kind = 'n'
 				m.meth = []string{"log", "prog"}[rng.Intn(2)]
 			} else {
-				m.meth = []string{"lroots", "sample", "elicit", "ping"}[rng.Intn(4)]
+				m.meth = []string{"lroots", "sample", "elicit", "ping", "samplet"}[rng.Intn(5)]
 			}
 		}
 		if m.kind == 0 {
-			m.kind = []byte{'c', 'c', 'g', 'g', 'r'}[rng.Intn(5)]
+			m.kind = []byte{'c', 'c', 'g', 'g', 'r', 'c', 'g', 'x'}[rng.Intn(8)]
+			if m.kind == 'x' {
+				m.cx = []int{0, 1 + rng.Intn(5), 1 + rng.Intn(30), 1 + rng.Intn(2000)}[rng.Intn(4)]
+			}
 		}
 		if m.kind == 'n' && rng.Intn(3) == 0 {
 			m.cb = true
@@ -744,6 +755,9 @@ func ordGenFan(rng *rand.Rand, tr string, maxLen int) *ordCase {
 			}
 		}
 		c.msgs = append(c.msgs, m)
+	}
+	if rng.Intn(2) == 0 {
+		c.ck = 1 + rng.Intn(25) // the receiving connection's Cancel goroutine is scheduled late
 	}
 	return c
 }
